@@ -129,7 +129,12 @@ def delayed_load(all_props, loader, element=True, isotope=False, ion=False):
         """
         def setfn(el, value):
             #print "set", el, propname, value
+            # Load the table before assigning; otherwise the pending loader is
+            # lost and the other elements never get their values. If the
+            # loader itself is doing the assignment then it is already marked
+            # as loaded and the nested call returns immediately.
             clearprops()
+            loader()
             setattr(el, propname, value)
         return setfn
 
